@@ -997,6 +997,10 @@ def check_memory_forms(run, ctx):
                                     run.bad('C05-K1', '%s/%s/oversize-effects' % (key, POL[p]), 'a value larger than max_memory is stored or displaces other entries '
                                             '(stored %d, own key removed %d, other entries removed %d, queue +%d -%d, fit tests %d) in %s' % (d['S+'], d['Srepl'], d['S-'], d['Q>'], d['Qrem'], d['cmp:fit'], fn.name), site=fn.name,
                                             oracle='oversize => no net entry, no other eviction')
+                                elif (d['Q>'] >= 1 and d['Q-front'] >= 1) or (d['Q<'] >= 1 and d['Q-back'] >= 1):
+                                    run.bad('C05-K1', '%s/%s/oversize-wrong-queue-slot' % (key, POL[p]), 'the oversize path of %s takes its key out of the store but pops the *other* end of the '
+                                            'queue than the one it just pushed the key to: the oldest key leaves the queue while its entry stays stored (it can never be evicted again) and the '
+                                            'refused key stays queued' % fn.name, site=fn.name, oracle='the slot removed is the one just added (same end, or removal by key)')
                                 else:
                                     run.ok('C05-K1', '%s/%s/limit=%d/oversize' % (key, POL[p], lim), 'no net entry (stored %d, taken out again %d), no other entry removed, eviction loop not entered' % (d['S+'], d['Srepl']))
                             else:
